@@ -1,9 +1,11 @@
 import IoraModel.Model.WsFrame
 /-
-Model of the post-upgrade data path of `include/iora/network/websocket_client.hpp`:
-`handleData` (frame loop), `handleFrame`, `handleDataFrame`, `sendText/sendBinary/sendPing/sendClose`.
+Model of the data path of `include/iora/network/websocket_client.hpp`:
+`handleData` (HTTP upgrade response, then the frame loop), `handleFrame`, `handleDataFrame`,
+`sendText/sendBinary/sendPing/sendClose`.
 Client frames are masked with a random key; the key is not part of the model: an outgoing frame is recorded
 as (opcode, fin, UNMASKED payload) and the harness unmasks what the real client sent (W1 covers masking).
+As for the server, callbacks run outside every lock and may send re-entrantly (`CCbs`).
 -/
 namespace Iora.Ws
 
@@ -13,6 +15,7 @@ inductive CEv where
   | sent (op : Nat) (fin : Bool) (pl : Bytes)
   | onClose (code : Nat) (reason : Bytes)
   | onError
+  | connected                        -- `_onConnect` (upgrade response accepted)
   deriving DecidableEq, Repr
 
 structure CSess where
@@ -23,79 +26,185 @@ structure CSess where
   protocolFailed : Bool := false    -- `_protocolFailed`
   closeSent : Bool := false         -- `_closeSent` (under `_sendMutex`)
   connected : Bool := true          -- `_state == CONNECTED`
+  upgraded : Bool := true           -- `_upgradeComplete`
   deriving DecidableEq, Repr
+
+/-- what the application sends from inside each callback -/
+structure CCbs where
+  onText : List Send := []
+  onBinary : List Send := []
+  onClose : List Send := []
+  onError : List Send := []
+  deriving Repr
+
+/-- per-connection constants: the size limit (`_maxFrameSize`, default `kMaxFramePayload`), the expected
+`Sec-WebSocket-Accept` value (base64 of SHA-1 of key + GUID: computed outside the model) and the callback scripts -/
+structure CCfg where
+  max : Nat := Gen.Ws.clientMaxFramePayload
+  accept : Bytes := []
+  cb : CCbs := {}
+  deriving Repr
 
 def cstr (s : String) : Bytes := s.toUTF8.toList
 
-/-- `kMaxFramePayload` -/
-def clientMaxPayload : Nat := Gen.Ws.clientMaxFramePayload
-
 /-- mirrors `sendClose(code, reason)`: flag and send are one `_sendMutex` section; no state check -/
 def cSendClose (s : CSess) (code : Nat) (reason : Bytes) : CSess × List CEv :=
-  ({ s with closeSent := true }, [.sent 8 true (b8 (code / 256) :: b8 code :: reason)])
+  ({ s with closeSent := true }, [.sent 8 true (closeBody code reason)])
 
-/-- mirrors `sendText/sendBinary/sendPing`: advisory state check, then check-and-send under `_sendMutex` -/
+/-- mirrors `sendText/sendBinary` (and `sendPing` after its payload guard): advisory state check, then
+check-and-send under `_sendMutex` -/
 def cSend (s : CSess) (op : Nat) (pl : Bytes) : CSess × List CEv :=
   if !s.connected then (s, []) else if s.closeSent then (s, []) else (s, [.sent op true pl])
 
+def cSendPing (s : CSess) (pl : Bytes) : CSess × List CEv :=
+  if pl.length > Gen.Ws.clientPingMax then (s, []) else cSend s 9 pl
+
+def cSendStep (s : CSess) : Send → CSess × List CEv
+  | .text bs => cSend s 1 bs
+  | .binary bs => cSend s 2 bs
+  | .ping bs => cSendPing s bs
+  | .close c r => cSendClose s c r
+
+def cRunSends : CSess → List Send → CSess × List CEv
+  | s, [] => (s, [])
+  | s, a :: as =>
+    let (s1, e1) := cSendStep s a
+    let (s2, e2) := cRunSends s1 as
+    (s2, e1 ++ e2)
+
+/-- invoke a callback: the callback event, then whatever the application sends from inside it -/
+def cFire (s : CSess) (e : CEv) (script : List Send) : CSess × List CEv :=
+  let (s1, ev) := cRunSends s script
+  (s1, e :: ev)
+
+def cDeliver (cb : CCbs) (s : CSess) (op : Nat) (pl : Bytes) : CSess × List CEv :=
+  if op = 1 then
+    if !isValidUtf8 pl then cSendClose s 1007 (cstr "Invalid UTF-8")
+    else cFire s (.text pl) cb.onText
+  else if op = 2 then cFire s (.binary pl) cb.onBinary
+  else (s, [])
+
+/-- mirrors the failure sequence (frame-level in `handleData`, message-level in `handleDataFrame`):
+`_protocolFailed = true`, `sendClose`, state CLOSED, `_onError` -/
+def cFail (cb : CCbs) (s : CSess) (tooLarge : Bool) : CSess × List CEv :=
+  let (s1, ev) := cSendClose { s with protocolFailed := true }
+    (if tooLarge then 1009 else 1002) (cstr (if tooLarge then "Message Too Big" else "Protocol error"))
+  let (s2, ev2) := cFire { s1 with connected := false } .onError cb.onError
+  (s2, ev ++ ev2)
+
+/-- the locked part of `handleDataFrame`: a start frame replaces the fragment buffer, a continuation frame appends -/
+def cAccumulate (s : CSess) (f : Frame) : CSess :=
+  if f.opcode = 1 || f.opcode = 2 then { s with fragOp := f.opcode, fragBuf := f.payload }
+  else if f.opcode = 0 then { s with fragBuf := s.fragBuf ++ f.payload }
+  else s
+
 /-- mirrors `handleDataFrame` -/
-def cHandleDataFrame (s : CSess) (f : Frame) : CSess × List CEv :=
-  let isStart := f.opcode = 1 || f.opcode = 2
-  let s1 : CSess :=
-    if isStart then { s with fragOp := f.opcode, fragBuf := f.payload }
-    else if f.opcode = 0 then { s with fragBuf := s.fragBuf ++ f.payload }
-    else s
-  if f.fin then
-    let op := s1.fragOp
-    let pl := s1.fragBuf
-    let s2 := { s1 with fragBuf := [], fragOp := 0 }
-    if op = 1 then
-      if !isValidUtf8 pl then cSendClose s2 1007 (cstr "Invalid UTF-8")
-      else (s2, [.text pl])
-    else if op = 2 then (s2, [.binary pl])
-    else (s2, [])
+def cHandleDataFrame (cfg : CCfg) (s : CSess) (f : Frame) : CSess × List CEv :=
+  let s1 := cAccumulate s f
+  if s1.fragBuf.length > cfg.max then
+    cFail cfg.cb { s1 with fragBuf := [], fragOp := 0 } true
+  else if f.fin then
+    cDeliver cfg.cb { s1 with fragBuf := [], fragOp := 0 } s1.fragOp s1.fragBuf
   else (s1, [])
 
 /-- mirrors `handleFrame` -/
-def cHandleFrame (s : CSess) (f : Frame) : CSess × List CEv :=
-  if f.opcode = 1 || f.opcode = 2 || f.opcode = 0 then cHandleDataFrame s f
+def cHandleFrame (cfg : CCfg) (s : CSess) (f : Frame) : CSess × List CEv :=
+  if f.opcode = 1 || f.opcode = 2 || f.opcode = 0 then cHandleDataFrame cfg s f
   else if f.opcode = 9 then (s, [.sent 10 true f.payload])
   else if f.opcode = 10 then (s, [])
   else if f.opcode = 8 then
     let (code, reason) := closePayload f.payload
     let (s1, ev) := if !s.closeEchoed then cSendClose { s with closeEchoed := true } code reason else (s, [])
-    ({ s1 with connected := false }, ev ++ [.onClose code reason])
+    let (s2, ev2) := cFire { s1 with connected := false } (.onClose code reason) cfg.cb.onClose
+    (s2, ev ++ ev2)
   else (s, [])
 
-/-- mirrors the failure arm of the frame loop -/
-def cFail (s : CSess) (tooLarge : Bool) : CSess × List CEv :=
-  let (s1, ev) := cSendClose { s with protocolFailed := true }
-    (if tooLarge then 1009 else 1002) (cstr (if tooLarge then "Message Too Big" else "Protocol error"))
-  ({ s1 with connected := false }, ev ++ [.onError])
-
-/-- the frame loop of `handleData` (step 3) -/
-def cLoop : Nat → CSess → Bytes → CSess × List CEv × Option Bytes
+/-- the frame loop of `handleData` (step 3): stops (dropping the rest) as soon as the connection has been failed -/
+def cLoop (cfg : CCfg) : Nat → CSess → Bytes → CSess × List CEv × Option Bytes
   | 0, s, d => (s, [], some d)
   | fuel + 1, s, d =>
     if d.isEmpty then (s, [], some d) else
-    match parse clientMaxPayload d with
+    match parse cfg.max d with
     | .incomplete => (s, [], some d)
-    | .protocolError => let (s1, ev) := cFail s false; (s1, ev, none)
-    | .tooLarge => let (s1, ev) := cFail s true; (s1, ev, none)
+    | .protocolError => let (s1, ev) := cFail cfg.cb s false; (s1, ev, none)
+    | .tooLarge => let (s1, ev) := cFail cfg.cb s true; (s1, ev, none)
     | .frame f n =>
-      let (s1, ev1) := cHandleFrame s f
-      let (s2, ev2, r) := cLoop fuel s1 (d.drop n)
+      let (s1, ev1) := cHandleFrame cfg s f
+      if s1.protocolFailed then (s1, ev1, none) else
+      let (s2, ev2, r) := cLoop cfg fuel s1 (d.drop n)
       (s2, ev1 ++ ev2, r)
 
-/-- mirrors `handleData` after the upgrade completed -/
-def cOnData (s : CSess) (data : Bytes) : CSess × List CEv :=
-  let local_ := s.buffer ++ data
-  let s0 := { s with buffer := [] }
-  if s.protocolFailed then (s0, []) else
-  let (s1, ev, r) := cLoop (local_.length + 1) s0 local_
+/-- steps 3 and 4 of `handleData` on the local buffer -/
+def cFrames (cfg : CCfg) (s : CSess) (local_ : Bytes) : CSess × List CEv :=
+  if s.protocolFailed then (s, []) else
+  let (s1, ev, r) := cLoop cfg (local_.length + 1) s local_
   match r with
   | some rest => ({ s1 with buffer := rest }, ev)
   | none => (s1, ev)
+
+/-! ### the HTTP upgrade response (step 2 of `handleData`) -/
+
+/-- `std::string::find(pat)` on the suffix `d`, counting from `i` -/
+def findFrom (pat : Bytes) : Bytes → Nat → Option Nat
+  | [], i => if pat.isEmpty then some i else none
+  | x :: t, i => if pat.isPrefixOf (x :: t) then some i else findFrom pat t (i + 1)
+
+def findSub (pat d : Bytes) : Option Nat := findFrom pat d 0
+
+def isWs (x : UInt8) : Bool := x = 32 || x = 9
+
+/-- `substr(find_first_not_of(" \t"), …find_last_not_of(" \t"))` -/
+def trimWs (d : Bytes) : Bytes := ((d.dropWhile isWs).reverse.dropWhile isWs).reverse
+
+def crlf : Bytes := [13, 10]
+def crlf2 : Bytes := [13, 10, 13, 10]
+/-- the ASCII bytes of `"Sec-WebSocket-Accept:"` (`kAcceptHdr`) and of `"HTTP/1.1 101"`, written out so that proofs can
+compute with them (`String.toUTF8` does not reduce in the kernel); the lockstep runs tie them to the real strings -/
+def acceptHdr : Bytes := [83, 101, 99, 45, 87, 101, 98, 83, 111, 99, 107, 101, 116, 45, 65, 99, 99, 101, 112, 116, 58]
+def statusOk : Bytes := [72, 84, 84, 80, 47, 49, 46, 49, 32, 49, 48, 49]
+
+/-- the trimmed value of the `Sec-WebSocket-Accept:` header inside the header section (empty if absent) -/
+def acceptValue (resp : Bytes) (headerEnd : Nat) : Bytes :=
+  match findSub acceptHdr resp with
+  | none => []
+  | some ap =>
+    if ap < headerEnd then
+      let vs := ap + acceptHdr.length
+      let tail := resp.drop vs
+      let n := match findSub crlf tail with
+        | some k => k
+        | none => headerEnd - vs
+      trimWs (tail.take n)
+    else []
+
+inductive HsRes where
+  | wait (s : CSess)                         -- header incomplete (and not over the limit): everything put back
+  | failed (s : CSess) (ev : List CEv)       -- not a 101 / wrong accept value: state DISCONNECTED, input dropped
+  | ok (s : CSess) (ev : List CEv) (rest : Bytes)
+
+/-- mirrors step 2 of `handleData` on the local buffer -/
+def cHandshake (cfg : CCfg) (s : CSess) (local_ : Bytes) : HsRes :=
+  match findSub crlf2 local_ with
+  | none =>
+    if local_.length > Gen.Ws.clientMaxUpgradeResponse then .failed { s with connected := false } [.onError]
+    else .wait { s with buffer := local_ }
+  | some he =>
+    if !statusOk.isPrefixOf local_ then .failed { s with connected := false } [.onError]
+    else if acceptValue local_ he ≠ cfg.accept then .failed { s with connected := false } [.onError]
+    else .ok { s with upgraded := true, connected := true } [.connected] (local_.drop (he + 4))
+
+/-- mirrors `handleData` -/
+def cOnData (cfg : CCfg) (s : CSess) (data : Bytes) : CSess × List CEv :=
+  let local_ := s.buffer ++ data
+  let s0 := { s with buffer := [] }
+  if s.upgraded then cFrames cfg s0 local_
+  else
+    match cHandshake cfg s0 local_ with
+    | .wait s1 => (s1, [])
+    | .failed s1 ev => (s1, ev)
+    | .ok s1 ev rest =>
+      let (s2, ev2) := cFrames cfg s1 rest
+      (s2, ev ++ ev2)
 
 inductive COp where
   | sendText (bs : Bytes)
@@ -105,18 +214,21 @@ inductive COp where
   | data (bs : Bytes)
   deriving Repr
 
-def cStep (s : CSess) : COp → CSess × List CEv
-  | .sendText bs => cSend s 1 bs
-  | .sendBinary bs => cSend s 2 bs
-  | .sendPing bs => cSend s 9 bs
-  | .sendClose c r => cSendClose s c r
-  | .data bs => cOnData s bs
+def cStep (cfg : CCfg) (s : CSess) : COp → CSess × List CEv
+  | .sendText bs => cSendStep s (.text bs)
+  | .sendBinary bs => cSendStep s (.binary bs)
+  | .sendPing bs => cSendStep s (.ping bs)
+  | .sendClose c r => cSendStep s (.close c r)
+  | .data bs => cOnData cfg s bs
 
-def cRun : CSess → List COp → CSess × List CEv
+def cRun (cfg : CCfg) : CSess → List COp → CSess × List CEv
   | s, [] => (s, [])
   | s, op :: ops =>
-    let (s1, e1) := cStep s op
-    let (s2, e2) := cRun s1 ops
+    let (s1, e1) := cStep cfg s op
+    let (s2, e2) := cRun cfg s1 ops
     (s2, e1 ++ e2)
+
+/-- the state `doConnect` leaves before the upgrade response arrives -/
+def preUpgrade : CSess := { connected := false, upgraded := false }
 
 end Iora.Ws
